@@ -48,7 +48,13 @@ func (r *runner) runHist(cs *Case) (key, expected, observed string, herr error) 
 		if err != nil {
 			return "", "", "", err
 		}
-		r.st.add("hist_calls", 1)
+		if len(cs.Seq) > 1 {
+			r.st.add("hist_calls", 1)
+		}
+		if strings.HasPrefix(k, "retained-result-") {
+			*cs = one // the recorded case is the history from the kept call to this one
+			return k, e, o, nil
+		}
 		if k == "" {
 			if r.histSeen == nil {
 				r.histSeen = map[string]Call{}
@@ -74,6 +80,10 @@ func (r *runner) runHist(cs *Case) (key, expected, observed string, herr error) 
 				after, why = fmt.Sprintf("base=%s:path=%s", q(pj.Base), q(string(pj.Path))), "a different (base, path) with the same concatenation base+path, asked in an earlier history of the same process (prepended to the recorded case as call 0)"
 			}
 		}
+		if after == "none" && len(cs.Seq) == 1 {
+			*cs = one // a single call of a random shard with nothing related before it: a plain case
+			return k, e, o, nil
+		}
 		if after == "none" && i > 0 {
 			pj := cs.Seq[i-1]
 			after, why = fmt.Sprintf("base=%s:path=%s", q(pj.Base), q(string(pj.Path))), "the preceding call of the history"
@@ -86,6 +96,13 @@ func (r *runner) runHist(cs *Case) (key, expected, observed string, herr error) 
 			o + fmt.Sprintf(" (call %d; after %s: %s)", i, why, after), nil
 	}
 	return "", "", "", nil
+}
+
+// asHistory wraps a single call as a history of one call, so that a refuted call of a random
+// shard is recorded together with an earlier call of the same process that shares its
+// concatenation base+path (if there is one).
+func asHistory(cs Case) Case {
+	return Case{Mode: "hist", Seq: []Call{{Base: cs.Base, Path: cs.Path, Dir: cs.Dir, Chdir: cs.Chdir}}}
 }
 
 // histBase: a base with its cuts.
